@@ -32,6 +32,15 @@ MUTANTS = {
         ('range-416-header', 'dashlive/server/requesthandler/base.py', "headers['Content-Range'] = f'bytes */{content_length}'", "pass"),
         ('range-suffix-end', 'dashlive/server/requesthandler/base.py', "            start = max(0, content_length - amount)\n            end = content_length - 1", "            start = max(0, content_length - amount)\n            end = content_length"),
     ],
+    'C19': [
+        ('iso-no-carry', 'dashlive/utils/date_time.py', '    if milli_secs >= 1000:\n', '    if milli_secs >= 1001:\n'),
+        ('iso-trunc-ms', 'dashlive/utils/date_time.py', '* 1000 + 0.5)', '* 1000)'),
+        ('iso-mins', 'dashlive/utils/date_time.py', '    mins = secs // 60\n    secs %= 60', '    mins = secs // 60\n    secs %= 61'),
+        ('tc2td-round', 'dashlive/utils/date_time.py', 'us = int(timecode) * 1000000 // timescale', 'us = (int(timecode) * 1000000 + timescale - 1) // timescale'),
+        ('td2tc-drop-us', 'dashlive/utils/date_time.py', '    result += int(timescale * delta.microseconds // 1_000_000)\n', ''),
+        ('scale-days', 'dashlive/utils/date_time.py', '    secs += days * 86400\n    secs += msecs // 1000000.0', '    secs += days * 86000\n    secs += msecs // 1000000.0'),
+        ('isodt-trunc', 'dashlive/utils/date_time.py', 'min(999999, int(round(1000000.0 * secs)))', 'int(1000000.0 * secs)'),
+    ],
     'C14': [
         ('emsg-no-count-guard', 'dashlive/server/events/repeating_event_base.py', '            if self.count > 0 and event_id >= self.count:\n                break\n            if presentation_time < seg_start:', '            if presentation_time < seg_start:'),
         ('emsg-delta-abs', 'dashlive/server/events/repeating_event_base.py', 'time_delta = presentation_time - seg_start', 'time_delta = presentation_time'),
